@@ -80,14 +80,19 @@ static inline bool is_vast(size_t n) { return n >= ((size_t)64 << 20); }
 // One block in fifty carries a word from the dictionary of the library's own 64-bit immediates, repeated over its whole length: the
 // contents of a live block are the caller's and may be any value, including one the allocator uses as a marker internally.
 static const uint64_t DICT = (uint64_t)1 << 62;
+// A block that is a recycled page handed out at the page's own address (contents as the previous owner left them): the application writes
+// one dictionary word at its start and nothing else yet - the rest of the block still holds what was there before.
+static const uint64_t SPARSE = (uint64_t)1 << 61;
 static inline uint8_t dict_byte(uint64_t tag, size_t i) { uint64_t w = hdict::at((size_t)(tag & 0xFFFFFF)); return (uint8_t)(w >> (8 * (i & 7))); }
 void fill_block(uint8_t *p, size_t n, uint64_t tag) {
+    if (tag & SPARSE) { for (size_t i = 0; i < 8 && i < n; i++) p[i] = dict_byte(tag, i); return; }
     if (tag & DICT) { for (size_t i = 0; i < n; i++) p[i] = dict_byte(tag, i); return; }
     if (!is_vast(n)) { pat::fill(p, n, tag); return; }
     pat::fill(p, EDGE, tag);
     pat::fill(p + n - EDGE, EDGE, tag ^ 0x5555);
 }
 long first_bad_block(const uint8_t *p, size_t n, uint64_t tag) {
+    if (tag & SPARSE) { for (size_t i = 0; i < 8 && i < n; i++) if (p[i] != dict_byte(tag, i)) return (long)i; return -1; }
     if (tag & DICT) { for (size_t i = 0; i < n; i++) if (p[i] != dict_byte(tag, i)) return (long)i; return -1; }
     if (!is_vast(n)) return pat::first_bad(p, n, tag);
     long b = pat::first_bad(p, EDGE, tag);
@@ -106,6 +111,10 @@ void verify(Ctx &c, const Block &b, const char *when) {
 Block place(Ctx &c, uint8_t *p, size_t size) {
     Block b;
     b.p = p; b.size = size; b.tag = c.next_tag++;
+    if (size > 512 && size <= 4096 && ((uintptr_t)p & (PAGE - 1)) == 0 && c.plan->get("recycle_pages", 0) && hdict::size() && sim::mix64(b.tag, c.plan->seed) % 2 == 0) {
+        b.tag |= SPARSE;
+        sim::probe("first_word_of_a_recycled_page_block_set_to_a_dictionary_word_rest_untouched");
+    } else
     if (size >= 8 && size <= 4096 && hdict::size() && sim::mix64(b.tag, c.plan->seed) % 50 == 0) { b.tag |= DICT; sim::probe("block_filled_with_a_word_from_the_librarys_own_immediates"); }
     if (size > 512 && in_sba_page(p))
         sim::violation("c03:size-class", "a request of %zu bytes (beyond the largest size class) was served from a small-block page: it is not writable for its whole size", size);
@@ -205,7 +214,7 @@ void run_worker(Ctx &c, int idx) {
                     // grown in place: the extension must not run into a neighbour
                     check_new_block(c, (uint8_t *)p, n, "realloc(in place)");
                 }
-                long bad = (b.tag & DICT) ? first_bad_block((const uint8_t *)p, keep, b.tag)
+                long bad = (b.tag & (DICT | SPARSE)) ? first_bad_block((const uint8_t *)p, keep, b.tag)
                                           : is_vast(b.size) ? pat::first_bad(p, keep < EDGE ? keep : EDGE, b.tag) : pat::first_bad(p, keep, b.tag);
                 if (bad >= 0) sim::violation("c03:realloc-lost", "realloc(%zu -> %zu): old contents not preserved at offset %ld", b.size, n, bad);
                 Block nb;
